@@ -256,3 +256,42 @@ Q(name="e2_sendbuf_poll_transmit", props=["C01"], func=r"send_buffer\.rs[^>]*>::
       has_range=1 if any(k.endswith("#discr|") and "pop_min" in k and v == 1 for k, v in m.items()) else 0,
       lo=next((v for k, v in m.items() if "pop_min" in k and k.endswith("@Some.0.0|")), 0),
       hi=next((v for k, v in m.items() if "pop_min" in k and k.endswith("@Some.0.1|")), 0))))
+
+
+# ------------------------------------------------------------------ C07 / C03: stateless reset sizing (Endpoint::stateless_reset up to the buffer writes)
+def sr_pre(c):
+    return ule(c.inp("_3", BV64), bv(1 << 32))
+
+
+def sr_assume(c, p):
+    rr = p.called(r"random_range")
+    if not rr:
+        return "true"
+    r = rr[0][2]
+    start, end = p.out("_21.0", BV64), p.out("_21.1", BV64)
+    return imp(ult(start, end), and_(ule(start, r), ult(r, end)))
+
+
+def sr_post(c, p):
+    n = c.inp("_3", BV64)
+    if p.p.outcome == "return":
+        # returning without ever reaching the buffer: the datagram was ignored (rate limit or too small)
+        rate_limited = [x for x in p.p.state.calls if "Add<Duration>" in x[0] or "add" in x[0].split("::")[-1]]
+        return "true" if rate_limited else ule(n, bv(16 + 5))
+    # outcome "stop": about to reserve `padding_len + 16` bytes
+    total = p.p.state.stop_args[1].t          # Vec::reserve(buf, padding_len + RESET_TOKEN_SIZE)
+    rr = p.called(r"random_range")
+    conj = [ult(total, n), "(bvuge %s %s)" % (total, bv(16 + 5))]
+    if rr:
+        r = rr[0][2]
+        start, end = p.out("_21.0", BV64), p.out("_21.1", BV64)
+        # random_range panics on an empty range (its contract is assumed by sr_assume)
+        conj = [ult(start, end)] + conj
+    return and_(*conj)
+
+
+Q(name="e2_stateless_reset", props=["C07", "C03"], func=r"endpoint\.rs[^>]*>::stateless_reset$",
+  pure=[r"random_range", r"as Add<Duration>>::add"], stop_at=[r"Vec::<u8>::reserve"],
+  functions=["Endpoint::stateless_reset (up to the first buffer write)"], pre=sr_pre, post=sr_post, assume=sr_assume, check_stop=True,
+  bounds="every inciting datagram length <= 2^32, any rate-limiter state; rng.random_range is an uninterpreted function constrained only by its contract (result in [start,end), panics on an empty range); buffer filling and token computation after Vec::reserve are outside the query",
+  replay=("endpoint_stateless_reset_native", lambda m: dict(inciting_len=min(m.get("|in:_3|", 0), 65535))))
